@@ -3,10 +3,10 @@ package level
 import (
 	"bytes"
 
+	vp "github.com/Tnze/go-mc/internal/zzvp"
 	"github.com/Tnze/go-mc/level/block"
 	"github.com/Tnze/go-mc/nbt"
 	"github.com/Tnze/go-mc/save"
-	vp "github.com/Tnze/go-mc/internal/zzvp"
 )
 
 // PackXZ / UnpackXZ: a bijection on 0..15 x 0..15, refusal outside.
@@ -87,7 +87,7 @@ func VP_C13_save_heightmaps() {
 func VP_C13_wire_roundtrip() {
 	src := EmptyChunk(1)
 	probes := []int{0, 4095, 1, 17}
-	np := 2 + 2*vp.Tier() // positions written (quick: the first and the last)
+	np := 2 + 2*vp.Tier()         // positions written (quick: the first and the last)
 	k := vp.Choice(2 + vp.Tier()) // quick: 0 or 1 SetBlock (each upgrade copies 4096 entries)
 	for n := 0; n < k; n++ {
 		src.Sections[0].SetBlock(probes[vp.Choice(np)], vpRegState())
